@@ -24,7 +24,7 @@ PROP = "C14"
 LEVEL = "fault_enumeration"
 RUNS = {"quick": 190, "thorough": 9000}
 SELFCHECK_N = 4
-TIME_CAP = {"quick": 400, "thorough": 1500}
+TIME_CAP = {"quick": 400, "thorough": 900}
 CHUNK = 1          # runs per worker task (cost-aware: keeps the time cap responsive)
 RULE = ("AKAI volumes of 2-6 files and Roland performances of 2-5 samples (names pairwise at Hamming distance >= 2, no L/R pairs); one "
         "record is damaged per evaluation: enumerated block = every value 0..255 at the type byte, the two start-sector bytes and the "
